@@ -5206,7 +5206,10 @@ mod_webdav_copymove_b (request_st * const r, const plugin_config * const pconf, 
     }
     if (0 == memcmp(r->physical.rel_path.ptr+i, /*(suffix match)*/
                     r->physical.path.ptr + r->physical.path.used-1-remain,
-                    remain)) { /*(suffix match)*/
+                    remain)      /*(suffix match)*/
+        && r->physical.path.used-1-remain   /*(prefix must not be cut above basedir)*/
+             >= buffer_clen(&r->physical.basedir)
+              - (uint32_t)buffer_has_pathsep_suffix(&r->physical.basedir)) {
       #ifdef __COVERITY__
         force_assert(2 <= dst_rel_path->used);
       #endif
